@@ -220,8 +220,10 @@ func (p *process) cleanup(cancel context.CancelFunc) {
 	}
 
 	p.inbox.Stop()
-	p.context.engine.stopping.Set(p.pid.ID, p)
-	defer p.context.engine.stopping.Delete(p.pid.ID)
+	// The id is free from here on. Whoever spawns it again and stops that actor too
+	// replaces our entry, take back only what is ours.
+	p.context.engine.stopping.Store(p.pid.ID, p)
+	defer p.context.engine.stopping.CompareAndDelete(p.pid.ID, p)
 	p.context.engine.Registry.Remove(p.pid)
 	p.context.message = Stopped{}
 	applyMiddleware(p.context.receiver.Receive, p.Opts.Middleware...)(p.context)
